@@ -838,26 +838,56 @@ class Gen:
         self.features = features or {"opt", "minus", "union", "graph", "values", "bind", "filter", "subsel", "group",
                                      "exists"}
         self.extra = pool  # next fresh variable for BIND when the pool is exhausted
+        self.intended = {}  # variable -> the term it is meant to take (makes joins satisfiable most of the time)
+        self.alltriples = [t for ts in [ds["default"]] * 3 + [g[1] for g in ds["named"]] for t in ts]
 
     def var(self):
         return self.rng.randrange(self.pool)
 
-    def tp(self, prefer):
+    def var_for(self, x, prefer, force=True):
+        """a variable for a position whose witness term is x: mostly one whose intended value is x (so that joins
+        are satisfiable), else a fresh one, else (rarely, or when forced) any — an unsatisfiable or accidental join"""
         r = self.rng
-        def v():
-            if prefer and r.random() < 0.7:
-                return ["v", r.choice(sorted(prefer))]
-            return ["v", self.var()]
-        s = v() if r.random() < 0.75 else r.choice(self.nodes)
-        p = r.choice(self.preds) if r.random() < 0.85 else v()
-        o = v() if r.random() < 0.7 else r.choice(self.consts)
-        return [s, p, o]
+        eq = [v for v in range(self.pool) if self.intended.get(v) == x]
+        free = [v for v in range(self.pool) if v not in self.intended]
+        if eq and r.random() < 0.85:
+            pe = [v for v in eq if v in prefer]
+            return r.choice(pe) if pe and r.random() < 0.8 else r.choice(eq)
+        if free and r.random() < 0.9:
+            v = r.choice(free)
+            self.intended[v] = x
+            return v
+        if not force and r.random() < 0.75:
+            return None
+        if prefer and r.random() < 0.5:
+            return r.choice(sorted(prefer))
+        return self.var()
 
-    def triples(self, prefer, nmax=2):
+    def tp(self, prefer, pool=None):
+        r = self.rng
+        ts = pool or self.alltriples
+        if not ts or r.random() < 0.05:
+            w = [r.choice(self.nodes), r.choice(self.preds), r.choice(self.consts)]
+        else:
+            iv = list(self.intended.values())
+            near = [t for t in ts if t[0] in iv or t[2] in iv]
+            w = r.choice(near) if near and r.random() < 0.75 else r.choice(ts)
+
+        def pos(x, pvar):
+            if x[0] == "b":
+                return ["v", self.var_for(x, prefer)]
+            if r.random() < pvar:
+                v = self.var_for(x, prefer, force=False)
+                if v is not None:
+                    return ["v", v]
+            return x
+        return [pos(w[0], 0.75), pos(w[1], 0.15), pos(w[2], 0.7)]
+
+    def triples(self, prefer, nmax=2, pool=None):
         n = 1 if self.rng.random() < 0.65 else self.rng.randint(2, max(2, nmax))
         tps = []
         for _ in range(n):
-            tp = self.tp(prefer)
+            tp = self.tp(prefer, pool)
             tps.append(tp)
             prefer = set(prefer) | pos_vars(tp)
         return ["tri", tps]
@@ -874,12 +904,25 @@ class Gen:
             return self.var()
         x = r.random()
         if x < 0.34:
-            op = r.choice(["eq", "ne", "eq", "ne", "lt", "gt", "le", "ge"])
-            a = ["var", v()]
-            b = ["var", v()] if r.random() < 0.45 else ["const", r.choice(self.consts)]
+            y = r.random()
+            a = v()
+            iv = self.intended.get(a)
+            others = [c for c in self.consts if c != iv] or self.consts
+            if y < 0.3 and iv is not None and iv[0] != "b":
+                e = ["cmp", "eq", ["var", a], ["const", iv]]
+            elif y < 0.5:
+                e = ["cmp", "ne", ["var", a], ["const", r.choice(others)]]
+            elif y < 0.65:
+                e = ["cmp", r.choice(["ne", "ne", "eq"]), ["var", a], ["var", v()]]
+            elif y < 0.85:
+                lits = [c for c in self.consts if c[0] in "nst"] or self.consts
+                e = ["cmp", r.choice(["lt", "gt", "le", "ge"]), ["var", a],
+                     ["var", v()] if r.random() < 0.3 else ["const", r.choice(lits)]]
+            else:
+                e = ["cmp", r.choice(OPS), ["var", a], ["const", r.choice(self.consts)]]
             if r.random() < 0.2:
-                a, b = b, a
-            return ["cmp", op, a, b]
+                e = ["cmp", {"lt": "gt", "gt": "lt", "le": "ge", "ge": "le"}.get(e[1], e[1]), e[3], e[2]]
+            return e
         if x < 0.46:
             return ["bound", v()]
         if x < 0.54:
@@ -909,16 +952,19 @@ class Gen:
             elif c < 0.75:
                 elts.append(["union", [["group", [self.triples(sc)]], ["group", [self.triples(sc | vis)]]]])
             elif self.has_named and c < 0.9:
-                elts = [["graph", self.gpos(vis), ["group", elts]]]
+                gp, gpool = self.gpos(vis)
+                elts = [["graph", gp, ["group", [self.triples(vis, pool=gpool)]]]]
             else:
                 elts.append(self.triples(sc))
         return ["group", elts]
 
     def gpos(self, prefer):
+        """name position of a GRAPH pattern + the triples its inner patterns should be drawn from"""
         r = self.rng
+        name, ts = r.choice(self.ds["named"])
         if r.random() < 0.55:
-            return ["v", r.choice(sorted(prefer))] if prefer and r.random() < 0.5 else ["v", self.var()]
-        return r.choice([g[0] for g in self.ds["named"]])
+            return ["v", self.var_for(name, prefer)], ts
+        return name, ts
 
     def values(self, prefer):
         r = self.rng
@@ -931,17 +977,21 @@ class Gen:
         rows = []
         for _ in range(r.randint(1, 3)):
             rows.append([None if r.random() < 0.15 else r.choice(self.consts) for _ in vs])
+        if r.random() < 0.75:
+            keep = [self.intended[v] if (v in self.intended and self.intended[v][0] != "b") else None for v in vs]
+            rows.insert(r.randrange(len(rows) + 1), keep)
         if r.random() < 0.25 and rows:
             rows.append(list(rows[0]))  # duplicate row: multiplicity
         return ["values", vs, rows]
 
-    def group(self, depth, outer=frozenset(), first_tri=0.8):
-        """outer = variables in scope around this group (they get reused inside on purpose)"""
+    def group(self, depth, outer=frozenset(), first_tri=0.8, pool=None):
+        """outer = variables in scope around this group (they get reused inside on purpose);
+        pool = triples of the graph this group is matched against (witnesses for the triple patterns)"""
         r = self.rng
         elts = []
         n = r.choice([1, 2, 2, 3, 3, 4]) if depth > 0 else r.choice([1, 1, 2])
         if r.random() < first_tri:
-            elts.append(self.triples(outer))
+            elts.append(self.triples(outer, pool=pool))
         while len(elts) < n:
             sc = in_scope(["group", elts])
             pref = sc | set(outer)
@@ -957,19 +1007,20 @@ class Gen:
             if k == "tri":
                 if elts and elts[-1][0] == "tri":
                     continue  # adjacent triples blocks are one block in the grammar
-                elts.append(self.triples(pref))
+                elts.append(self.triples(pref, pool=pool))
             elif k == "opt":
-                elts.append(["opt", self.group(depth - 1, pref)])
+                elts.append(["opt", self.group(depth - 1, pref, pool=pool)])
             elif k == "minus":
-                elts.append(["minus", self.group(depth - 1, pref)])
+                elts.append(["minus", self.group(depth - 1, pref, pool=pool)])
             elif k == "union":
-                elts.append(["union", [self.group(depth - 1, pref), self.group(depth - 1, pref)]])
+                elts.append(["union", [self.group(depth - 1, pref, pool=pool), self.group(depth - 1, pref, pool=pool)]])
             elif k == "group":
-                elts.append(["union", [self.group(depth - 1, pref)]])
+                elts.append(["union", [self.group(depth - 1, pref, pool=pool)]])
             elif k == "graph":
-                elts.append(["graph", self.gpos(pref), self.group(depth - 1, pref)])
+                gp, gpool = self.gpos(pref)
+                elts.append(["graph", gp, self.group(depth - 1, pref, pool=gpool)])
             elif k == "subsel":
-                g = self.group(depth - 1, pref)
+                g = self.group(depth - 1, pref, pool=pool)
                 isc = sorted(in_scope(g))
                 if not isc or r.random() < 0.15:
                     proj = None
@@ -1461,3 +1512,259 @@ def _enc_tpl(t):
         else:
             out.append(term_code(from_rdflib_term(x)))
     return " ".join(out)
+
+
+# =========================================================================== Safe / InFragment (mirror of RV/C04/Safe.lean)
+# The Lean definitions are the reference; the driver prints them (`safe …`) and c04.py compares on every case.
+
+
+def parse_sx(text):
+    toks = text.replace("(", " ( ").replace(")", " ) ").split()
+    pos = 0
+
+    def rd():
+        nonlocal pos
+        t = toks[pos]; pos += 1
+        if t == "(":
+            out = []
+            while toks[pos] != ")":
+                out.append(rd())
+            pos += 1
+            return out
+        return t
+    return rd()
+
+
+def _pv(p):
+    return [int(p[1:])] if p.startswith("?") else []
+
+
+def _tpsvars(items):
+    out = []
+    for x in items:
+        out += _pv(x)
+    return out
+
+
+def _ints(v):  # (vars k…)
+    return [int(x) for x in v[1:]]
+
+
+def _values_cols(a):
+    vs = _ints(a[1])
+    rows = [r[1:] for r in a[2:]]
+    return vs, rows
+
+
+def alg_must(a):
+    k = a[0]
+    if k == "bgp":
+        return _tpsvars(a[1:])
+    if k == "join":
+        return alg_must(a[2]) + alg_must(a[3])
+    if k in ("leftjoin", "minus"):
+        return alg_must(a[1])
+    if k == "filter":
+        return alg_must(a[2])
+    if k == "union":
+        b = alg_must(a[2])
+        return [v for v in alg_must(a[1]) if v in b]
+    if k == "extend":
+        return alg_must(a[1])
+    if k == "graph":
+        return _pv(a[1]) + alg_must(a[2])
+    if k == "values":
+        vs, rows = _values_cols(a)
+        return [v for i, v in enumerate(vs) if all(i < len(r) and r[i] != "U" for r in rows)]
+    if k == "project":
+        pv = _ints(a[2])
+        return [v for v in alg_must(a[1]) if v in pv]
+    raise ValueError(a)
+
+
+def alg_may(a):
+    k = a[0]
+    if k == "bgp":
+        return _tpsvars(a[1:])
+    if k == "join":
+        return alg_may(a[2]) + alg_may(a[3])
+    if k == "leftjoin":
+        return alg_may(a[1]) + alg_may(a[2])
+    if k == "minus":
+        return alg_may(a[1])
+    if k == "filter":
+        return alg_may(a[2])
+    if k == "union":
+        return alg_may(a[1]) + alg_may(a[2])
+    if k == "extend":
+        return [int(a[2])] + alg_may(a[1])
+    if k == "graph":
+        return _pv(a[1]) + alg_may(a[2])
+    if k == "values":
+        vs, rows = _values_cols(a)
+        return [v for i, v in enumerate(vs) if any(i < len(r) and r[i] != "U" for r in rows)]
+    if k == "project":
+        pv = _ints(a[2])
+        return [v for v in alg_may(a[1]) if v in pv]
+    raise ValueError(a)
+
+
+def expr_vars(e):
+    k = e[0]
+    if k in ("var", "bound"):
+        return [int(e[1])]
+    if k == "const":
+        return []
+    if k == "cmp":
+        return expr_vars(e[2]) + expr_vars(e[3])
+    if k in ("and", "or"):
+        return expr_vars(e[1]) + expr_vars(e[2])
+    if k == "not":
+        return expr_vars(e[1])
+    if k in ("exists", "nexists"):
+        return alg_all_vars(e[1])
+    raise ValueError(e)
+
+
+def alg_all_vars(a):
+    k = a[0]
+    if k == "bgp":
+        return _tpsvars(a[1:])
+    if k == "join":
+        return alg_all_vars(a[2]) + alg_all_vars(a[3])
+    if k == "leftjoin":
+        return alg_all_vars(a[1]) + alg_all_vars(a[2]) + expr_vars(a[3])
+    if k == "filter":
+        return expr_vars(a[1]) + alg_all_vars(a[2])
+    if k in ("union", "minus"):
+        return alg_all_vars(a[1]) + alg_all_vars(a[2])
+    if k == "extend":
+        return [int(a[2])] + expr_vars(a[3]) + alg_all_vars(a[1])
+    if k == "graph":
+        return _pv(a[1]) + alg_all_vars(a[2])
+    if k == "values":
+        return _ints(a[1])
+    if k == "project":
+        return _ints(a[2]) + alg_all_vars(a[1])
+    raise ValueError(a)
+
+
+def exists_free(e):
+    k = e[0]
+    if k in ("var", "const", "bound"):
+        return True
+    if k == "cmp":
+        return exists_free(e[2]) and exists_free(e[3])
+    if k in ("and", "or"):
+        return exists_free(e[1]) and exists_free(e[2])
+    if k == "not":
+        return exists_free(e[1])
+    return False
+
+
+def _exists_body(a):
+    k = a[0]
+    if k == "bgp":
+        return True
+    if k == "join":
+        return a[1] == "0" and _exists_body(a[2]) and _exists_body(a[3])
+    if k == "union":
+        return _exists_body(a[1]) and _exists_body(a[2])
+    if k == "graph":
+        return _exists_body(a[2])
+    if k == "leftjoin":
+        return _exists_body(a[1]) and _exists_body(a[2]) and a[4] == "none" and a[3] == ["const", "t1"]
+    return False
+
+
+def _exists_ok(a):
+    if a[0] == "filter":
+        return a[4] == "1" and exists_free(a[1]) and _exists_body(a[2])
+    return _exists_body(a)
+
+
+def scope_problems(rel, ann, must, may):
+    """kinds of the ways the annotation `ann` is inexact on the relevant variables `rel` (see Safe.lean):
+       K3 listed but never bound by the sub-pattern, K1 listed but bound only in some solutions, K2 bound but not listed"""
+    out = set()
+    for i in rel:
+        if i in ann and i not in must:
+            out.add("K1" if i in may else "K3")
+        if i in may and i not in ann:
+            out.add("K2")
+    return out
+
+
+def alg_problems(a, out=None):
+    """set of reasons why `Alg.safe` is false (empty set = safe): K1/K2/K3 (known-finding classes), 'illformed-bind',
+    'exists-unsupported', 'noiso'"""
+    out = set() if out is None else out
+    k = a[0]
+
+    def ex(e):
+        kk = e[0]
+        if kk == "cmp":
+            ex(e[2]); ex(e[3])
+        elif kk in ("and", "or"):
+            ex(e[1]); ex(e[2])
+        elif kk == "not":
+            ex(e[1])
+        elif kk in ("exists", "nexists"):
+            if not _exists_ok(e[1]):
+                out.add("exists-unsupported")
+    if k in ("bgp", "values"):
+        pass
+    elif k == "join":
+        alg_problems(a[2], out); alg_problems(a[3], out)
+    elif k == "union":
+        alg_problems(a[1], out); alg_problems(a[2], out)
+    elif k == "filter":
+        alg_problems(a[2], out); ex(a[1])
+        if a[4] == "1":
+            out.add("noiso")
+        out |= scope_problems(expr_vars(a[1]), _ints(a[3]), alg_must(a[2]), alg_may(a[2]))
+    elif k == "extend":
+        alg_problems(a[1], out); ex(a[3])
+        v = int(a[2])
+        if v in alg_may(a[1]) or v in expr_vars(a[3]):
+            out.add("illformed-bind")
+        out |= scope_problems(expr_vars(a[3]), _ints(a[4]), alg_must(a[1]), alg_may(a[1]))
+    elif k in ("project",):
+        alg_problems(a[1], out)
+    elif k == "graph":
+        alg_problems(a[2], out)
+    elif k == "minus":
+        alg_problems(a[1], out); alg_problems(a[2], out)
+        out |= scope_problems(alg_may(a[2]), _ints(a[3]), alg_must(a[1]), alg_may(a[1]))
+    elif k == "leftjoin":
+        alg_problems(a[1], out); alg_problems(a[2], out); ex(a[3])
+        p1 = None if a[4] == "none" else _ints(a[4])
+        own = (p1 or []) + _ints(a[5])
+        out |= scope_problems(expr_vars(a[3]), own, alg_must(a[1]) + alg_must(a[2]), alg_may(a[1]) + alg_may(a[2]))
+        if p1 is None:
+            out.add("exists-unsupported")
+        else:
+            out |= scope_problems(alg_may(a[2]) + expr_vars(a[3]), p1, alg_must(a[1]), alg_may(a[1]))
+    else:
+        raise ValueError(a)
+    return out
+
+
+def alg_in_fragment(a):
+    k = a[0]
+    if k in ("bgp", "values"):
+        return True
+    if k == "join":
+        return alg_in_fragment(a[2]) and alg_in_fragment(a[3])
+    if k == "union":
+        return alg_in_fragment(a[1]) and alg_in_fragment(a[2])
+    if k == "filter":
+        return exists_free(a[1]) and alg_in_fragment(a[2])
+    if k == "extend":
+        return exists_free(a[3]) and alg_in_fragment(a[1])
+    return False
+
+
+def query_pattern(qsx):
+    """pattern of an encoded root: (select pv a) (ask pv a) (construct tpl pv a)"""
+    return qsx[-1]
